@@ -166,3 +166,5 @@ from sa.selftest import VP  # noqa
 VP('C17', 'C17-e1', 'C17.R9', 'sync-before-reply')
 VP('C17', 'C17-e2', 'C17.R1', 'arg=global_schema')
 VP('C17', 'C17-e3', 'C17.R5', 'records-new-state')
+VP('C17', 'C17-f3', 'C17.R9', 'sync-before-error-reply')
+VP('C17', 'C09-f3', 'C17.R10', 'remember-after-compile')
